@@ -134,6 +134,15 @@ func (e *Engine) callStatic(st *State, fr *Frame, callee *ssa.Function, env TEnv
 		return
 	}
 	c := e.contractFor(callee)
+	if c != nil && c.Mode == "rangeloop" {
+		key := e.contractKey(callee)
+		e.callees[key] = true
+		if c.Trusted {
+			e.trustedUsed[key] = true
+		}
+		e.rangeLoop(st, fr, c, key, e.bindParams(callee, args), args, pos, k)
+		return
+	}
 	if c != nil && !c.Inline && !(body == e.root && false) {
 		e.callContract(st, fr, callee, c, env, args, rt, pos, k)
 		return
@@ -175,6 +184,9 @@ func (e *Engine) bindParams(callee *ssa.Function, args []Val) map[string]Val {
 	for i, p := range body.Params {
 		if i < len(args) {
 			vars[p.Name()] = args[i]
+			if i == 0 && body.Signature.Recv() != nil {
+				vars["this"] = args[i]
+			}
 		}
 	}
 	return vars
@@ -208,6 +220,13 @@ func (e *Engine) callContract(st *State, fr *Frame, callee *ssa.Function, c *Con
 		e.trustedUsed[key] = true
 	}
 	vars := e.bindParams(callee, args)
+	if body.Signature.Recv() != nil {
+		for i, n := range c.ImplAlias {
+			if i+1 < len(args) {
+				vars[n] = args[i+1]
+			}
+		}
+	}
 	cfr := &Frame{fn: body, env: env, regs: map[ssa.Value]Val{}, names: map[string]NameBinding{}, parent: fr, depth: fr.depth + 1}
 	for n, v := range vars {
 		cfr.names[n] = NameBinding{V: v}
